@@ -72,6 +72,23 @@ def run():
         raise TieBroken("finished_event no longer maps _return_value to return_value")
     if "arguments.return_value" not in ast.unparse(fns["_expand_match_element"]):
         raise TieBroken("_expand_match_element no longer assigns `$ref.arguments.return_value`")
+    # defaults: the heap model (`allocDefaults`) says a declared default is evaluated for every instance by
+    # `eval_expression(<x>.default_value_expr, {})` — directly, in the empty context, for parameters and return members
+    direct, other = 0, []
+    for node in ast.walk(fns["create_flow_instance"]):
+        if isinstance(node, ast.Call) and any(isinstance(a, ast.Attribute) and a.attr == "default_value_expr" for a in node.args):
+            ok = (isinstance(node.func, ast.Name) and node.func.id == "eval_expression" and len(node.args) == 2
+                  and isinstance(node.args[1], ast.Dict) and not node.args[1].keys)
+            if ok:
+                direct += 1
+            else:
+                other.append(ast.unparse(node.func))
+    if other or direct < 2:
+        raise TieBroken("create_flow_instance no longer evaluates declared defaults by direct calls eval_expression(<x>.default_value_expr, {}) "
+                        f"(direct calls: {direct}, other consumers: {other}): the model's allocDefaults (a new object per instance, empty context) is out of date")
+    # restart of an activated flow: start_event hands `self.arguments` on (all of them on an unrepaired tree)
+    if "self.arguments" not in ast.unparse(fns["FlowState.start_event"]):
+        raise TieBroken("FlowState.start_event no longer builds the StartFlow arguments from self.arguments")
     if repaired():
         # the repaired tree names the internal keys itself: they must be the model's
         consts = [n for n in ast.walk(parse(AST_FILE)) if isinstance(n, ast.Assign) and any(isinstance(t, ast.Name) and t.id == "INTERNAL_FLOW_EVENT_ARGUMENTS" for t in n.targets)]
